@@ -9,7 +9,7 @@ use crate::verif_spec as spec;
 // @harness c09_format_header
 // @props C09 C20
 // @tier quick
-// @cost 60
+// @cost 6
 // @timeout 900
 // @needs F1
 // @desc the header the formatter builds (the statements of format_qcow2 from the L1-entry computation to the header literal, lifted verbatim) for every virtual size, cluster size and refcount width: l1_size == ceil(size / (cluster_size/8 * cluster_size)) -- the number of L1 entries the specification needs to map the whole disk, incl. a partial last cluster -- and version, cluster_bits, size, refcount_order and the table positions are the values handed in
